@@ -14,7 +14,8 @@ Result of `read(path, environ)`:
                          'hooks': {hook: (callable name, ignore_errors)},
                          'free': {option: str},              options the documentation does not list
                          'env': {var: str}}}
-     'sockets':  {name: {...}},  'plugins': {name: {...}}}
+     'sockets':  {name: {...}},  'plugins': {name: {...}},
+     'raw': [(section, [(option, text)])]}      the file(s) as written, in order
 """
 import configparser
 import fnmatch
@@ -190,6 +191,10 @@ def expand(text, layers):
     return _REF.sub(repl, text)
 
 
+def has_reference(text):
+    return bool(_REF.search(text or ''))
+
+
 def shell_style(value, environ):
     """"bash style environment substitutions are supported. for example, append /bin to `PATH`
     'PATH = $PATH:/bin'" ... "(expanded from the environment circusd was run in)"."""
@@ -220,7 +225,7 @@ def _parse(path):
     return out
 
 
-def _sections(path):
+def sections(path):
     """Main file, then "include" / "include_dir" ("The paths are absolute or relative to the
     config file."; "You can use wildcards"; "All files matching `*.ini` under each directory")."""
     here = os.path.dirname(os.path.abspath(path))
@@ -262,7 +267,7 @@ def _fill(table, items, layers, out_free=None):
 
 def read(path, environ, sys_path=None):
     environ = dict(environ)
-    secs = _sections(path)
+    secs = sections(path)
     names = [n for n, _ in secs]
     by_name = dict(secs)
     glob_env = dict(by_name.get('env', []))              # raw text of [env]
@@ -274,7 +279,7 @@ def read(path, environ, sys_path=None):
         # a reference inside [env] can only mean the daemon's environment or another [env] entry
         glob_env_x[k] = expand(v, Layers(dict((a, b) for a, b in glob_env.items() if a != k), environ))
 
-    result = {'circus': {}, 'watchers': {}, 'sockets': {}, 'plugins': {}}
+    result = {'circus': {}, 'watchers': {}, 'sockets': {}, 'plugins': {}, 'raw': secs}
 
     w, d = _fill(CIRCUS_OPTIONS, [(k, v) for k, v in by_name.get('circus', [])
                                   if k not in ('include', 'include_dir')], base)
